@@ -416,6 +416,7 @@ class SimNet(object):
         self.log = []
         self.write_hooks = []
         self.connect_hooks = []
+        self.cancel_with_connecting_cancelled = True
         self.connect_policy = None  # fn(host, port, n_attempt) -> ("accept"|"refuse"|"blackhole", latency or None)
         self.owner = None  # tag put on attempts/connections made now
 
@@ -453,6 +454,7 @@ class SimNet(object):
         att.factory = factory
         outcome, lat = self._decide(host, port)
         self.attempts.append(att)
+        att_idx = len(self.attempts)
         self.log.append(("connect", now, host, port))
         for h in self.connect_hooks:
             h(att)
@@ -477,6 +479,12 @@ class SimNet(object):
             for dc in dc_box:
                 if dc.active():
                     dc.cancel()
+            # what a cancelled attempt fails with depends on how far the real endpoint had got: HostnameEndpoint fails
+            # with ConnectingCancelledError once it is dialling, with the plain CancelledError while it still resolves
+            # the name.  Alternate by attempt (no random draw).
+            if self.cancel_with_connecting_cancelled and att_idx % 2 == 1:
+                from twisted.internet.error import ConnectingCancelledError
+                d.errback(Failure(ConnectingCancelledError(IPv4Address("TCP", host, port))))
 
         d = Deferred(cancel)
         self.pending_attempts.add(att)
